@@ -62,6 +62,8 @@ pub struct Trace {
   pub drain_firings: usize,
   /// finalize callback runs counted after subscription and after every script step
   pub finalize_after_step: Vec<usize>,
+  /// items the final subscriber fed back into hot input 0 from inside its callback: (step, virtual time, item)
+  pub fb: Vec<(usize, u64, crate::value::V)>,
 }
 
 impl Trace {
@@ -79,6 +81,9 @@ impl Trace {
 }
 
 /// run a pipeline case with the local or the thread-safe build; Err = panic message
+pub fn run_pcase_fb(case: &crate::ast::PCase, sample_closed: bool, fb: &[i64]) -> Result<Trace, String> {
+  crate::run::guarded_strict(|| if case.threads { crate::threads::exec_fb(case, sample_closed, fb) } else { crate::local::exec_fb(case, sample_closed, fb) })
+}
 pub fn run_pcase(case: &crate::ast::PCase, sample_closed: bool) -> Result<Trace, String> {
   crate::run::guarded_strict(|| if case.threads { crate::threads::exec(case, sample_closed) } else { crate::local::exec(case, sample_closed) })
 }
